@@ -2,6 +2,7 @@ package main
 
 import (
 	"fmt"
+	"strings"
 
 	"github.com/antonmedv/expr/vm"
 
@@ -116,6 +117,10 @@ func c15(r *report.Run) {
 		}
 		rawSrcs = append(rawSrcs, v+" in [1, 200, 300]", v+" == 1", "("+v+" == nil) == (nil == "+v+")", "(B ? nil : "+v+") == nil", "(B ? nil : "+v+") != nil")
 	}
+	// pointer members against literals; arithmetic over an interface{} member against literal ranges (struct variants only:
+	// a map environment types its members from the sample value)
+	rawSrcs = append(rawSrcs, "PI == 250", "250 == PI", "PI != 250", "PI in [250, 1]", `PS == "a"`, `PS != "a"`, `PS in ["a"]`, "PI == nil", "PI == PI",
+		"(X + 1) in 1..300", "(X + 1) not in 1..300", "(I * X) in 1..300", "(X - 1) in [249, 1]", "-X in -300..0", "X + 1 == 251", "(B ? 1 : X) in 1..300", "X in 1..300")
 	for _, src := range append(rawSrcs, []string{"I in [-(-1), 5]", "I in [- -1, 3]", "I not in [-(+(-1))]", "I in [+1, -(-(-1))]", "I in [1, -1]", "J in [-1, -(-2)]", `S in ["a", "a" + "b"]`,
 		"F + J / 2", "F * (I / 2) + J", "I64 % 3 == 1", "I8 % 2 == 1", "F32 + 1 + 1", "MI == 1 or MI == 0", `MS == "a"`}...) {
 		rawOrder++
@@ -124,6 +129,9 @@ func c15(r *report.Run) {
 		for vi := 0; vi < 3; vi++ {
 			oks = oks[:0]
 			for _, m := range c15Modes {
+				if strings.Contains(src, "X") && (m.Env == "map" || m.Env == "mapundef") {
+					continue
+				}
 				mkEnv := func() *henv.Env {
 					e := henv.MakeFull(henv.Val{})
 					e.I, e.J = []int{1, 2, -1}[vi], []int{2, -2, 3}[vi]
@@ -131,6 +139,12 @@ func c15(r *report.Run) {
 					e.X, e.MI, e.B = []interface{}{int8(50), 250.0, nil}[vi], []henv.MyInt{250, 0, 1}[vi], vi != 1
 					if vi == 2 {
 						e.P, e.O = nil, nil
+					} else {
+						pi, ps := []int{250, 7}[vi], []string{"a", "b"}[vi]
+						e.PI, e.PS = &pi, &ps
+					}
+					if strings.Contains(src, "X") {
+						e.X = []interface{}{249.5, 250, int8(50)}[vi]
 					}
 					return e
 				}
